@@ -297,6 +297,8 @@ def run(ctx, build):
     R = ctx.runner('Fat')
     RB = ctx.try_runner('Boot')
     rng = ctx.rng
+    # resolution inside the volume ('.' / '..' through the dot entries): FatPath._resolve vs the FatVol model and the tree walk
+    lib.corr_modules(ctx, SPEC, ['fat_walk_corr'])
     tables = 150 if ctx.thorough else 3
     if ctx.widen:
         tables += 1
